@@ -39,7 +39,9 @@ Definition appended (t : N) : bool := (t =? 0x13)%N || (t =? 0x14)%N || out_case
 Lemma process_shape : forall s d s' closed err, I1 s ->
   ProcessDescriptor s d = Ok (s', (closed, err)) ->
   (rejection err /\ closed = [] /\ open s' = open s /\ inBlackout s' = inBlackout s /\ blackoutIdx s' = blackoutIdx s /\
-   receivedHead s' = receivedHead s /\ (haspts d = false -> s' = s))
+   receivedHead s' = receivedHead s /\ (haspts d = false -> s' = s) /\
+   (haspts d = true -> exists ring1 added x, scan_ring d (ptsv d) (received s) false = (ring1, added, Some x) /\
+                                             received s' = ring1 /\ err = Some x))
   \/
   (~ rejection err /\ haspts d = true /\
    (exists ring1 added, scan_ring d (ptsv d) (received s) false = (ring1, added, None) /\
@@ -52,12 +54,14 @@ Lemma process_shape : forall s d s' closed err, I1 s ->
 Proof.
   intros s d s' closed err HI H. pose proof HI as (B & (RL & RH) & HP). unfold ProcessDescriptor in H.
   destruct (haspts d) eqn:Hd; cbn [negb] in H.
-  2:{ inversion H; subst. left. unfold rejection. repeat split; auto. }
+  2:{ inversion H; subst. left. unfold rejection. repeat split; auto. discriminate. }
   pose proof (scan_ring_length d (ptsv d) (received s) false) as SL.
   destruct (scan_ring d (ptsv d) (received s) false) as [[ring1 added] early] eqn:SR. simpl in SL.
   destruct early as [e|].
-  { inversion H; subst. left. destruct (scan_ring_err _ _ _ _ _ _ _ SR) as [-> | ->]; unfold rejection;
-      repeat split; auto; discriminate. }
+  { inversion H; subst. left.
+    split; [destruct (scan_ring_err _ _ _ _ _ _ _ SR) as [-> | ->]; unfold rejection; auto|].
+    simpl. split; [reflexivity|]. split; [reflexivity|]. split; [reflexivity|]. split; [reflexivity|].
+    split; [reflexivity|]. split; [intros X; congruence|]. intros _. exists ring1, added, e. auto. }
   right.
   set (cl := close_loop d (rev (open s))) in *.
   set (open1 := firstn (length (open s) - length cl) (open s)) in *.
